@@ -108,7 +108,7 @@ def run_into(prog, x, ap, regs):
             regs.append(ap.vecsym(regs[ins[1]]))
         elif k == 'powr':
             regs.append(regs[ins[1]] ** regs[ins[2]])
-        elif k in ('eigh', 'qr', 'cholesky', 'svd'):
+        elif k in ('eigh', 'qr', 'cholesky', 'svd', 'lu'):
             regs.append(getattr(ap, k)(regs[ins[1]]))
         elif k == 'tget':
             regs.append(regs[ins[1]][ins[2]])
@@ -439,7 +439,20 @@ class Gen:
                 else:
                     e = self.emit(['bin', 'mul', ['r', t], ['c', 0.5]], 's')
                     self.emit(['set2', M, i, j, ['r', e]]); self.emit(['set2', M, j, i, ['r', e]])
-        kind = self.rng.choice(['eigh', 'eigh', 'cholesky', 'qr'])
+        kind = self.rng.choice(['eigh', 'eigh', 'cholesky', 'qr', 'lu', 'svd'])
+        if kind == 'lu':
+            # W, L, U = lu(M): both triangular factors enter the result, with weights on every entry (the unit diagonal of L included)
+            wlu = self.emit(['lu', M], 'tuple')
+            L = self.emit(['tget', wlu, 1], ('m', n, n)); U = self.emit(['tget', wlu, 2], ('m', n, n))
+            WL = self.emit(['bin', 'mul', ['r', L], ['a', [[self.rng.choice([0.5, 1.0, -1.0, 2.0]) for _ in range(n)] for _ in range(n)]]], ('m', n, n))
+            WU = self.emit(['bin', 'mul', ['r', U], ['a', [[self.rng.choice([0.5, 1.0, -1.0, 1.5]) for _ in range(n)] for _ in range(n)]]], ('m', n, n))
+            s1 = self.emit(['sum', WL], 's'); s2 = self.emit(['sum', WU], 's')
+            return self.emit(['bin', 'add', ['r', s1], ['r', s2]], 's')
+        if kind == 'svd':
+            usv = self.emit(['svd', M], 'tuple')
+            sv = self.emit(['tget', usv, 1], ('v', n))
+            w = self.emit(['bin', 'mul', ['r', sv], ['a', self.rng.sample([0.5, -1.0, 2.0, 1.5], n)]], ('v', n))
+            return self.emit(['sum', w], 's')
         if kind == 'eigh':
             lq = self.emit(['eigh', M], 'tuple')
             lam = self.emit(['tget', lq, 0], ('v', n))
@@ -610,8 +623,38 @@ def kernel_programs(rng, ap, reps=2):
                 l = ['r', a] if form[0] == 'r' else ['c', 1.75]
                 r_ = ['r', den] if form[1] == 'r' else ['c', -2.5]
                 out.append(('bin:%s:%s' % (op, form), finish(g, g.emit(['bin', op, l, r_], 's'))))
+        # the constants that invite shortcuts (1/x, x*1, x+0, x*0, x/1, -1*x, 2*x ...), as Python ints and as floats, on either side
+        for op in ['add', 'sub', 'mul', 'div']:
+            for form in ['rc', 'cr']:
+                for c in [1, 1.0, 0.0, -1, 2]:
+                    if op == 'div' and form == 'rc' and c == 0:
+                        continue
+                    g, a = start()
+                    sq = g.emit(['un', 'square', 1], 's')
+                    den = g.emit(['bin', 'add', ['r', sq], ['c', 1]], 's')      # integer-valued (and of integer dtype) at integer points
+                    l = ['r', den] if form[0] == 'r' else ['c', c]
+                    r_ = ['r', den] if form[1] == 'r' else ['c', c]
+                    out.append(('bin-special:%s:%s:%r' % (op, form, c), finish(g, g.emit(['bin', op, l, r_], 's'))))
+    def features(instrs):
+        # an instruction kind together with its discrete parameters (function name, operator, storage convention, axis, ...)
+        fs = set()
+        for ins in instrs:
+            fs.add(ins[0] + ''.join(':%s' % (v,) for v in ins[1:] if isinstance(v, str) or (ins[0] in ('sumaxis', 'symvec', 'prod', 'T') and isinstance(v, int))))
+        return fs
+
     for name, k in [('buffer_block', 8), ('vector_block', 8), ('matrix_block', 14), ('rect_block', 10), ('fact_block', 8), ('bcast_block', 6)]:
-        for _ in range(k * reps // 2 if reps > 1 else k):
+        # every branch of a block, not whatever a handful of draws happens to pick: keep drawing blocks (cheap, nothing is evaluated
+        # here) and keep each one that shows an instruction/parameter combination not seen so far, besides the first k
+        want = k * reps // 2 if reps > 1 else k
+        seen, kept, dry = set(), 0, 0
+        while dry < 200 and kept < 8 * k:
             g, a = start(N=rng.randint(2, 4))
-            out.append((name, finish(g, getattr(g, name)())))
+            prog = finish(g, getattr(g, name)())
+            fs = features(prog['instrs'])
+            if kept < want or not fs <= seen:
+                out.append((name, prog)); kept += 1
+                dry = 0 if not fs <= seen else dry + 1
+                seen |= fs
+            else:
+                dry += 1
     return out
